@@ -1,2 +1,4 @@
 -- Property files of work group B (import UF.Props.Cxx lines go here).
 import UF.Driver.Ops.GroupB
+import UF.Props.C01
+import UF.Props.C02
